@@ -33,6 +33,9 @@ Coll2Stores == { [i \in {1, 2} |-> Absent], [i \in {1, 2} |-> IF i = 1 THEN 1 EL
 \* fewer programs when subscribers multiply the interleavings
 SubValPrograms == { Set(1, 1), Set(1, 2), Inc(1, 1), Cas(1, 0, 3) }
 SubCollPrograms == { Set(1, 1), Add(1, 2), Upsert(1, 3), IncUp(1, 1), Del(1) }
+\* one deleting writer and a subscription opening around it
+DelPrograms == { Del(1), DelAm(1) }
+PresentStore == { [i \in {1} |-> 1] }
 \* with an equivalence configured: writes of the value already there, an item removed and added again as it was
 EquivCollPrograms == { Set(1, 1), Upsert(1, 1), Add(1, 1), Upsert(1, 2), Del(1) }
 EquivValPrograms == { Set(1, 1), Set(1, 2), Cas(1, 1, 1) }
@@ -70,5 +73,6 @@ EmitSched == Terminal =>
                             expect |-> [final |-> [i \in 1..NI |-> store[i].v],
                                         errs  |-> [w \in 1..NW |-> loc[w].err],
                                         views |-> [s \in 1..NS |-> [i \in 1..NI |-> view[s][i]]],
-                                        converged |-> Converged, commitValid |-> CommitValid, noMissed |-> NoCommitMissed]]))
+                                        converged |-> Converged, commitValid |-> CommitValid, noMissed |-> NoCommitMissed,
+                                        editScript |-> EditScript]]))
 =============================================================================
